@@ -4,6 +4,7 @@ import (
 	"fmt"
 	"go/parser"
 	"go/token"
+	"regexp"
 	"sort"
 	"strconv"
 	"strings"
@@ -351,6 +352,8 @@ func c15Unsorted(tools *pipeline.Tools, r *Recorder, rp *Replay, pf *ir.File) (s
 
 // ---------------------------------------------------------------- C17
 
+var undefinedHook = regexp.MustCompile(`undefined: (GenSchema|CopyFrom|CopyTo)[A-Za-z0-9_]+`)
+
 // c17Flip: the generator emits no conversion of its own for a custom field, so changing the
 // field's own proto type must not change the generated functions.
 func c17Flip(tools *pipeline.Tools, r *Recorder, rp *Replay) (string, error) {
@@ -438,9 +441,23 @@ func c17Flip(tools *pipeline.Tools, r *Recorder, rp *Replay) (string, error) {
 
 func init() {
 	simpleInner("C17", 200, func(o *gen.Opts, k *gen.KOpts) { o.CustomFields = true; k.CustomRich = true })
-	inner := Defs["C17"].Run
 	Defs["C17"].Run = func(tools *pipeline.Tools, r *Recorder, rp *Replay) (string, error) {
-		msg, err := inner(tools, r, rp)
+		c, skip, err := buildCaseFull(tools, r, rp, "c17-", specFor("C17"))
+		if c != nil {
+			defer cleanup(c)
+		}
+		if err != nil {
+			return "", err
+		}
+		if skip != "" {
+			// The harness supplies the three hooks under the suffix the property prescribes; a call to
+			// a hook of another name is this property's violation (any other build failure is C01's).
+			if m := undefinedHook.FindString(c.BuildErrors); m != "" {
+				return "the generated code calls a hook the documented suffix rule does not name: " + c.BuildErrors, nil
+			}
+			return "", nil
+		}
+		msg, err := runBuilt(tools, r, rp, c)
 		if msg != "" || err != nil {
 			return msg, err
 		}
